@@ -77,10 +77,11 @@ func ParseHeader(val string) (Header, error) {
 func (h *Header) Apply(hh http.Header) {
 	switch h.Action {
 	case Remove:
-		hh.Del(h.Name)
+		removeHeadersByName(hh, h.Name)
 	case RemoveByPrefix:
 		removeHeadersByPrefix(hh, h.Name)
 	case Empty:
+		removeHeadersByName(hh, h.Name)
 		hh.Set(h.Name, "")
 	case Add:
 		hh.Add(h.Name, *h.Value)
@@ -105,13 +106,23 @@ func (h *Header) Apply(hh http.Header) {
 	}
 }
 
+// removeHeadersByName deletes the header regardless of the case of its key,
+// the key may be non-canonical after RenameCase.
+func removeHeadersByName(h http.Header, name string) {
+	for k := range h {
+		if strings.EqualFold(k, name) {
+			delete(h, k)
+		}
+	}
+}
+
 func removeHeadersByPrefix(h http.Header, prefix string) {
 	for k := range h {
 		if len(k) < len(prefix) {
 			continue
 		}
 		if strings.EqualFold(k[0:len(prefix)], prefix) {
-			h.Del(k)
+			delete(h, k)
 		}
 	}
 }
